@@ -17,6 +17,8 @@ from ..result import Result
 from .. import env
 from ..sched import Sched, Deadlock, virtual_mp, Out, state_key
 
+CLI_TIMEOUT = 300  # a run takes 5-20 s; a multi-core run that deadlocks is killed (whole process group) after this long
+
 META = {
     "level": "model_checking",
     "rule": "sched: states = canonical (per-task step count + values read + exception, queue contents, stdout so far) of the real runner under "
@@ -186,6 +188,9 @@ def job_sched(job):
             outcomes.add(check_terminal(r, nloci, fail, main, out, pref, tag, payload_base))
             continue
         max_enabled = max(max_enabled, s.n_enabled_at_stop)
+        if s.n_enabled_at_stop == 0:
+            r.violation("sched-deadlock|" + tag, "no task can take a step after the schedule %r: the run never finishes" % (s.trace,), dict(payload_base, choices=pref))
+            continue
         for alt in range(s.n_enabled_at_stop):
             try:
                 s2, main2, out2 = run_sched(pref + [alt], nloci, ncores, fail, stop_after=len(pref) + 1)
@@ -216,7 +221,11 @@ def replay(payload):
 
     if payload.get("kind") == "sched":
         r = Result()
-        s, main, out = run_sched(payload["choices"], payload["nloci"], payload["ncores"], payload["fail"])
+        try:
+            s, main, out = run_sched(payload["choices"], payload["nloci"], payload["ncores"], payload["fail"])
+        except Deadlock as d:
+            r.violation("sched-deadlock", "no task enabled after %r" % (d.args[0],), payload)
+            return r
         r.evaluations += 1
         check_terminal(r, payload["nloci"], payload["fail"], main, out, payload["choices"],
                        "loci=%d|cores=%d|fail=%s" % (payload["nloci"], payload["ncores"], payload["fail"]), payload)
@@ -437,7 +446,7 @@ def job_cli(job):
             envp["PYTHONHASHSEED"] = mode[4:]
         p = subprocess.Popen(cmd, stdout=subprocess.PIPE, stderr=subprocess.PIPE, text=True, env=envp, start_new_session=True)
         try:
-            out, err = p.communicate(timeout=900)
+            out, err = p.communicate(timeout=CLI_TIMEOUT)
         except subprocess.TimeoutExpired:
             try:
                 os.killpg(p.pid, signal.SIGKILL)  # the whole process group: pool workers and manager too
@@ -458,7 +467,7 @@ def job_cli(job):
         recs = stddata.records(out)
         hdr = [l for l in stddata.header(out) if not l.startswith("##fileDate") and not l.startswith("##commandline")]
         if rc == "timeout":
-            r.violation(tag + "|no-exit", "the process did not exit within 900 s (%d records written)" % len(recs), payload)
+            r.violation(tag + "|no-exit", "the process did not exit within %d s (%d records written)" % (CLI_TIMEOUT, len(recs)), payload)
             continue
         if mode == "fail":
             if rc == 0:
